@@ -14,6 +14,7 @@ import ZorgVerif.Model.Zo
 import ZorgVerif.Model.NoteText
 import ZorgVerif.Model.Action
 import ZorgVerif.Model.Crash
+import ZorgVerif.Model.Move
 /-! Line protocol: one JSON request per line on stdin, one JSON answer per line on stdout. -/
 open Lean ZorgVerif
 
@@ -435,6 +436,23 @@ def handleCrash (op : String) (j : Json) : Except String Json := do
   let kv (m : List (Str × Str)) : Json := Json.arr (m.map (fun x => Json.arr #[jstr x.1, jstr x.2])).toArray
   pure (Json.mkObj [("effects", Json.arr out.toArray), ("files", kv fin.files), ("hashes", kv fin.hashes), ("db", kv fin.db)])
 
+/-- `move.text`: the text `note move` hands to `add_note` -/
+def handleMove (op : String) (j : Json) : Except String Json := do
+  match op with
+  | "move.text" =>
+    let kind ← strOf j "kind"
+    let priority : Option Str := match strOf j "priority" with | .ok p => some p.toList | .error _ => none
+    let marker : Option Char := match strOf j "marker" with | .ok m => m.toList.head? | .error _ => none
+    let body ← strOf j "body"
+    let zid ← strOf j "zid"
+    let props ← pairsOf j "props"
+    let m : Move.Meta := {
+      projects := (← strsOf j "projects").map String.toList, areas := (← strsOf j "areas").map String.toList,
+      contexts := (← strsOf j "contexts").map String.toList, people := (← strsOf j "people").map String.toList,
+      props := props.map (fun kv => (kv.1, kv.2.headD [])) }
+    pure (Json.mkObj [("ok", jstr (Move.movedText (kind.toList.headD '-') priority marker body.toList zid.toList m))])
+  | _ => throw s!"unknown op {op}"
+
 def handle (line : String) : Json :=
   match Json.parse line with
   | .error e => Json.mkObj [("driver_error", s!"parse: {e}")]
@@ -456,6 +474,7 @@ def handle (line : String) : Json :=
         else if op.startsWith "nt." then handleNt op j
         else if op.startsWith "action." then handleAction op j
         else if op.startsWith "crash." then handleCrash op j
+        else if op.startsWith "move." then handleMove op j
         else .error s!"unknown op {op}"
       match r with
       | .ok v => v
